@@ -123,3 +123,19 @@ Definition valid_range (f : list N) (i j : Z) : Prop :=
 Definition is_range_flag (f : list N) : Prop := exists r, f = s_range ++ r.
 Definition known_flag (names : list (list N)) (f : list N) : Prop :=
   f = s_fuzzy \/ f = s_wrap \/ f = s_no_wrap \/ f = s_markdown \/ is_range_flag f \/ is_format_flag names f.
+
+(* a flag list that breaks none of the flag rules (data/tags: unknown-, duplicate-, conflicting-, redundant-message-flag,
+   invalid-range-flag, range-flag-without-plural-string).  [compatible] : the example sets of two formats intersect *)
+Definition bad_pair (tp1 tp2 : ftp) : Prop :=
+  (tp1 = TpPos /\ tp2 = TpNo) \/ (tp1 = TpPos /\ tp2 = TpImpossible) \/ (tp1 = TpPossible /\ tp2 = TpImpossible)
+  \/ (tp1 = TpPos /\ tp2 = TpPossible).
+Definition flags_clean (tbl : list (list N * list (list N))) (has_plural : bool) (F : list (list N)) : Prop :=
+  NoDup F
+  /\ (forall f, In f F -> known_flag (map fst tbl) f)
+  /\ (forall f, In f F -> is_range_flag f -> has_plural = true /\ exists i j, valid_range f i j)
+  /\ (forall f g, In f F -> In g F -> is_range_flag f -> is_range_flag g -> f = g)
+  /\ ~ (In s_wrap F /\ In s_no_wrap F)
+  /\ (forall n1 n2, In n1 (map fst tbl) -> In n2 (map fst tbl) -> n1 <> n2 ->
+        In (format_flag TpPos n1) F -> In (format_flag TpPos n2) F -> compatible tbl n1 n2 = true)
+  /\ (forall name tp1 tp2, In name (map fst tbl) -> bad_pair tp1 tp2 ->
+        ~ (In (format_flag tp1 name) F /\ In (format_flag tp2 name) F)).
